@@ -236,9 +236,28 @@ func ruleLS(c *Ctx) {
 				if len(args) >= 4 {
 					ver = vpath(args[3])
 				}
-				if strings.Contains(ver, "params.TextDocument.Version") {
-					// every return that is not an early error return comes from typecheck
-					c.Ok(rule, key, tc.Pos(), "stores the document, then publishes diagnostics for params.TextDocument.Version")
+				// every return that is not an error return is the result of typecheck: a silent
+				// `return nil` publishes nothing for this version
+				silent := token.NoPos
+				for _, b := range f.Blocks {
+					if ret, ok := b.Instrs[len(b.Instrs)-1].(*ssa.Return); ok && len(ret.Results) == 1 {
+						v := ret.Results[0]
+						if k, isK := v.(*ssa.Const); isK && k.Value == nil {
+							silent = ret.Pos()
+						}
+						if ph, isPhi := v.(*ssa.Phi); isPhi {
+							for _, e := range ph.Edges {
+								if k, isK := e.(*ssa.Const); isK && k.Value == nil {
+									silent = ret.Pos()
+								}
+							}
+						}
+					}
+				}
+				if silent != token.NoPos {
+					c.Bad(rule, key, silent, "%s can return nil without calling typecheck: no diagnostics are published for that version of the document", name)
+				} else if strings.Contains(ver, "params.TextDocument.Version") {
+					c.Ok(rule, key, tc.Pos(), "stores the document, then publishes diagnostics for params.TextDocument.Version; no success return bypasses typecheck")
 				} else {
 					c.Bad(rule, key, tc.Pos(), "%s publishes diagnostics with version %q instead of the request's TextDocument.Version", name, ver)
 				}
